@@ -106,9 +106,9 @@ def run(oc, tier, seed, model_available, escalate):
                 if bad:
                     break
         if bad:
-            oc.violations.append({"input": {"params": P.describe(), "tree": {k: (v.hex() if len(v) < 300 else "<%d bytes>" % len(v)) for k, v in tree.items()},
-                                            "damaged": {k: (v.hex() if len(v) < 300 else "<%d bytes>" % len(v)) for k, v in dmg.items()},
-                                            "ecc": bytes(data).hex() if len(data) < 3000 else "<%d bytes>" % len(data)},
+            oc.violations.append({"input": {"params": P.describe(), "tree": {k: v.hex() for k, v in tree.items()},
+                                            "damaged": {k: v.hex() for k, v in dmg.items()},
+                                            "ecc": bytes(data).hex()},
                                   "impl": {"exit": rc, "stats": st}, "what": bad})
         oc.count("tool:" + P.tool)
         oc.count("algo:%d" % P.algo)
